@@ -91,13 +91,15 @@ def _close(x, q):
 def exact_part(ctx, exe, rd, cfgs):
     cases = []
     for cfg, workers, label in cfgs:
-        r = tlc.run("Mlr", cfg, workers=workers, timeout=2400, coverage=False)
+        if isinstance(cfg, dict):        # constants computed per run
+            cfg = tlc.write_cfg(os.path.join(rd, "%s.cfg" % label), spec="Spec", constants=cfg, invariants=["Theorems"], constraints=["Emit"], deadlock=False)
+        r = tlc.run("Mlr", cfg, workers=ledgerkit.par(workers), timeout=2400, coverage=False)
         ctx.add_tlc(r, label)
         if not r.ok:
             raise InfraError("Mlr.tla: theorem %s fails in the exact model itself (%s):\n%s" % (r.violation, cfg, r.trace_text[:2000]))
         if not r.emits:
             raise InfraError("Mlr.tla emitted no case (%s)" % cfg)
-        ctx.note("Mlr.tla %s: %d states, %d full-rank cases solved exactly, all OLS theorems hold (%.0fs)" % (cfg, r.distinct, len(r.emits), r.wall))
+        ctx.note("Mlr.tla %s: %d states, %d full-rank cases solved exactly, all OLS theorems hold (%.0fs)" % (label, r.distinct, len(r.emits), r.wall))
         cases += r.emits
     path = os.path.join(rd, "cases.txt")
     with open(path, "w") as f:
@@ -259,13 +261,19 @@ def run(ctx):
             n = exact_part(ctx, exe, rd, [("MC_Mlr_quick.cfg", 8, "gen_all_3x1"), ("MC_Mlr_sample.cfg", 6, "gen_sample")])
             events = validate_part(ctx, exe, rd, 600, 8)
         else:
-            n = exact_part(ctx, exe, rd, [("MC_Mlr_quick.cfg", 16, "gen_all_3x1"), ("MC_Mlr_thorough.cfg", 16, "gen_all_4x1"), ("MC_Mlr_sample_thorough.cfg", 16, "gen_sample")])
+            n = exact_part(ctx, exe, rd, [("MC_Mlr_quick.cfg", 16, "gen_all_3x1"), ] + [
+                (dict(Mode="all", NN=4, PP=1, Samples=1, Chains=1, Slice=k), 16, "gen_all_4x1_slice%d" % k) for k in range(1, 6)] + [("MC_Mlr_sample_thorough.cfg", 16, "gen_sample")])
             events = validate_part(ctx, exe, rd, 20000, 16)
         ctx.cov["rule"] = ("exact part: every full-rank (X, y) with X in {-2..2}^(3x1), y in {-2..2}^3 (thorough: also 4x1) plus random shapes n 3..5, p 1..2 over the same alphabet, "
                            "each a distinct case keyed by (X, y), non-trivial iff y is not constant; validate part: seeded random problems n 4..50, p 1..min(10,n-2), 1..4 responses, "
                            "noise class 0/5%/70%/600%, column scales 10^[-1.5,1.5], offsets up to 30 spreads, cond([1 X]) <= 1e4, keyed by (n, p, ny, noise class)")
         ctx.cov["exact_cases_replayed"] = n
-        selftests(ctx, events)
+        try:
+            selftests(ctx, events)
+        except InfraError as e:
+            if not ctx.violations:
+                raise
+            ctx.note("binding self-test not conclusive on a trace that already carries violations: %s" % e)
     finally:
         shutil.rmtree(rd, ignore_errors=True)
 
